@@ -583,8 +583,27 @@ fn main() {
                 "ok".into()
             }
             "abspath" => {
-                let r = verif::absolute_source_path(&unhex_s(f[1]), &unhex_s(f[2]));
-                hex(r.to_str().unwrap().as_bytes())
+                // the path a report made for (manifest dir, file!()) will READ: through ErrorReport::new, not only through the
+                // pure function (whatever else the constructor consults - the process environment, the current directory - is
+                // then part of what is observed)
+                let (m, fl) = (unhex_s(f[1]), unhex_s(f[2]));
+                let r = verif::absolute_source_path(&m, &fl);
+                let report = ErrorReport::new(&m, &fl);
+                let (abs, _rel) = verif::report_paths(&report);
+                if abs != r {
+                    format!("REPORT-READS {} FUNCTION-SAYS {}", hex(abs.to_str().unwrap().as_bytes()), hex(r.to_str().unwrap().as_bytes()))
+                } else {
+                    hex(r.to_str().unwrap().as_bytes())
+                }
+            }
+            "setenv" => {
+                // setenv <name> <xvalue|->  : what the test process inherits from cargo (or from the user's shell)
+                if f[2] == "-" { unsafe { std::env::remove_var(f[1]) } } else { unsafe { std::env::set_var(f[1], unhex_s(f[2])) } }
+                "ok".into()
+            }
+            "chdir" => {
+                let _ = std::env::set_current_dir(unhex_s(f[1]));
+                "ok".into()
             }
             "label" => {
                 let nd = node(kind_of(f[1]), (0, 0, 0, 0));
